@@ -1,10 +1,11 @@
-"""C07 -- observations are egocentric.  Oracle: rotate the world (grid through the real Grid.__mul__, pose along the induced
+"""C07 -- observations are egocentric.  Oracle: rotate the world (grid rebuilt by hand cell by cell, pose along the same
 cell map, heading (-r) * o) and compare the real observations with ==; T2 as C05 (same observation model)."""
 import sys
 
 import vt.boot  # noqa: F401
 from gym_gridverse.agent import Agent
 from gym_gridverse.geometry import Orientation, Position
+from gym_gridverse.grid import Grid
 from gym_gridverse.state import State
 
 from vt import comp, core, gen, impl, osuite, wire
@@ -26,9 +27,23 @@ def rotate_world(state, r):
         ny, nx = w - 1 - x, y
     else:
         ny, nx = x, h - 1 - y
-    g2 = g * r
-    # the position map is validated on the code itself: the object under the agent must follow it
-    assert g2[ny, nx] is g[y, x]
+    # the rotated world is built BY HAND (same objects, cell (y, x) placed where a quarter turn puts it), not with the library's own grid
+    # rotation: the property is about observations, and a slip in Grid.__mul__ must not be able to cancel itself out here
+    def dest(yy, xx):
+        if r is Orientation.F:
+            return yy, xx
+        if r is Orientation.B:
+            return h - 1 - yy, w - 1 - xx
+        if r is Orientation.R:
+            return w - 1 - xx, yy
+        return xx, h - 1 - yy
+    h2, w2 = (h, w) if r in (Orientation.F, Orientation.B) else (w, h)
+    rows = [[None] * w2 for _ in range(h2)]
+    for yy in range(h):
+        for xx in range(w):
+            a, b = dest(yy, xx)
+            rows[a][b] = g[yy, xx]
+    g2 = Grid(rows)
     return State(g2, Agent(Position(ny, nx), (-r) * state.agent.orientation, state.agent.grid_object))
 
 
@@ -38,7 +53,7 @@ def run(ctx):
                 'observation functions, all four quarter turns of the world; non-trivial = a non-identity turn whose observation shows an object')
     n = 500 if ctx.tier == 'quick' else 5000
     metas, reqs = [], []
-    large = osuite.large_cases(r, 4 if ctx.tier == 'quick' else 30)
+    large = osuite.large_cases(r, 8 if ctx.tier == 'quick' else 30)
     for it in range(n + len(large)):
         if it < n:
             cs = osuite.tagged_state(r, 1, 8)
@@ -46,7 +61,7 @@ def run(ctx):
             area = osuite.rand_area(r)
         else:
             area, cs = large[it - n]          # large worlds, large views: whatever the code does differently for big inputs
-            name = r.choice(['fully_transparent', 'raytracing'])
+            name = r.choice(['fully_transparent', 'fully_transparent', 'fully_transparent', 'raytracing'])   # ray tracing 1000+ cells takes seconds
             ctx.count('large world / view', f'{len(cs[0])}x{len(cs[0][0])}')
         kind, val, log, tape, obs, state = osuite.run_obs(name, area, cs)
         f = comp.build_obs({'name': name, 'area': area})
